@@ -93,9 +93,13 @@ _HIDDEN_BUILTIN_TYPES: Dict[str, type] = {
 
 
 def typed_dict_from_dict(d: TypeDict) -> type:
-    return TypedDict(
+    typ: type = TypedDict(
         d["qualname"], {k: type_from_dict(v) for k, v in d["elem_types"].items()}
     )
+    # TypedDict() stamps the class with the module of its caller. Keep the recorded
+    # one, so that a type and its decoded copy have the same encoding.
+    typ.__module__ = d["module"]
+    return typ
 
 
 def type_from_dict(d: TypeDict) -> type:
